@@ -320,11 +320,12 @@ var groupPool = []string{
 	"var (\n\tone = 1\n)\n", "var (\n\tf1 = func() {\n\t}\n\tn int\n)\n",
 }
 var funcGroupPool = []string{"func mul = (\n\tmulInt\n\tmulFloat\n)\n", "func (T).add = (\n\t(T).addInt\n\t(T).addT\n)\n"}
-var importPool = []string{"import \"fmt\"\n", "import (\n\t\"fmt\"\n\t\"os\"\n)\n", "import (\n\t\"strings\"\n)\n"}
+var importPool = []string{"import \"fmt\"\n", "import f \"fmt\"\n", "import \"fmt\"\nimport \"os\"\n"}
+var importGroupPool = []string{"import (\n\t\"fmt\"\n\t\"os\"\n)\n", "import (\n\t\"strings\"\n)\n"}
 var funclitResultPool = []string{"func() int {\n\treturn 1\n}()\n", "func(a int) (r int) {\n\treturn a\n}(1)\n", "func() (int, error) { return 0, nil }()\n"}
-var trailPool = []string{" // t", " /* t */", " // }"}
+var trailPool = []string{" // t", " /* t */", " // }", " # t", " /* a */ // b"}
 
-var shapes = []string{"group-before-statement", "group-after-statement", "func-group", "package", "import", "funclit-result", "trailing-comment", "no-final-newline"}
+var shapes = []string{"group-before-statement", "group-after-statement", "func-group", "package", "import", "import-group", "funclit-result", "trailing-comment", "no-final-newline"}
 
 func chunkGen(t *rapid.T, kinds []string) Chunk {
 	kind := rapid.SampledFrom(kinds).Draw(t, "kind")
@@ -388,6 +389,8 @@ func scriptGen(shape string) *rapid.Generator[Case] {
 			cs = append([]Chunk{decorate(t, Chunk{"package", "package main\n"})}, cs...)
 		case "import":
 			cs = append([]Chunk{decorate(t, Chunk{"import", rapid.SampledFrom(importPool).Draw(t, "imp")})}, cs...)
+		case "import-group":
+			cs = append([]Chunk{decorate(t, Chunk{"import", rapid.SampledFrom(importGroupPool).Draw(t, "imp")})}, cs...)
 		case "funclit-result":
 			insert(decorate(t, Chunk{"funclit-result", rapid.SampledFrom(funclitResultPool).Draw(t, "flr")}), 0, len(cs))
 		case "trailing-comment":
@@ -421,7 +424,7 @@ func scriptGen(shape string) *rapid.Generator[Case] {
 
 func TestGenerated(t *testing.T) {
 	g := scriptGen("")
-	vk.R.Rapid(t, 1, 6000, 180000, func(t *rapid.T) {
+	vk.R.Rapid(t, 1, 12000, 400000, func(t *rapid.T) {
 		run(t, g.Draw(t, "script"), "src=generated")
 	})
 }
